@@ -22,12 +22,15 @@ open LineBuffer (Str)
 inductive Src where
   | time | absPath | platform | hashOrder | random
   | siblings | psUniqueName | psMemo | psTemplateCache | psModelCache
+  | psCompileFold     -- a stateful filter on constant arguments: Jinja may evaluate it when the template is COMPILED
+  | psSharedMutable   -- an object handed out by a memoised function is mutated
 deriving DecidableEq, Repr, Inhabited
 
 /-- What a run may differ in for C07: clock, location/cwd, platform data, hash seed, random numbers. -/
 def Src.c07 : List Src := [.time, .absPath, .platform, .hashOrder, .random]
 /-- What a run may differ in for C10: sibling types and process-wide state left by earlier files / runs. -/
-def Src.c10 : List Src := [.siblings, .psUniqueName, .psMemo, .psTemplateCache, .psModelCache]
+def Src.c10 : List Src :=
+  [.siblings, .psUniqueName, .psMemo, .psTemplateCache, .psModelCache, .psCompileFold, .psSharedMutable]
 
 structure Leaf where
   id      : Nat
